@@ -17,6 +17,10 @@ PROPS = ("C01", "C04", "C05", "C07", "C08", "C09", "C11", "C12")
 OFFSETS = [(dr, dc) for dr in (-1, 0, 1) for dc in (-1, 0, 1) if (dr, dc) != (0, 0)]
 
 
+# documented reward constants per configuration: (revealed empty square, revealed mine, invalid action); the environment's documented default is (1, 0, 0)
+REWARDS = {"default": (1.0, 0.0, 0.0), "3x3m2r": (1.0, -3.0, -5.0), "3x3m2ri": (1, -3, -5)}
+
+
 def configs(tier):
     """the catalogue configurations (default rewards 1/0/0) + one with three distinct reward constants, so that the
     documented mapping event -> reward is distinguishable"""
@@ -82,7 +86,8 @@ def problems(env, cfg, tier):
     Env = type(env)
     rf = env.reward_function
     # documented reward constants (constructor arguments of DefaultRewardFn; note the attribute is spelt `revelead_mine_reward`)
-    R_EMPTY, R_MINE, R_INVALID = float(rf.revealed_empty_square_reward), float(rf.revelead_mine_reward), float(rf.invalid_action_reward)
+    # (read from the configuration table below, not from private attributes of the reward object: renaming an attribute is a harmless edit)
+    R_EMPTY, R_MINE, R_INVALID = (float(x) for x in REWARDS.get(cfg, REWARDS["default"]))
     default_rewards = (R_EMPTY, R_MINE, R_INVALID) == (1.0, 0.0, 0.0)
     I, J = np.meshgrid(np.arange(R), np.arange(C), indexing="ij")
     from jumanji.environments.logic.minesweeper import utils as U
